@@ -525,6 +525,58 @@ def run_copies(ctx, rep):
     rep.counts['R10.7.sites'] = n
 
 
+# ---------------------------------------------------------------------------------------------
+# R10.8  every view of the table region is built where the mirroring flag and the active-FAT number are looked at: a slice
+#        whose start is "right after the reserved sectors" but that was not positioned by a geometry site reads (or writes)
+#        table #0 even when another copy is the active one
+
+def run_table_views(ctx, rep):
+    facts = ctx.facts
+    gsites = ctx.cache.get('r10_sites') or []
+    gfns = {G['fn'].name for G in gsites}
+    geo_structs = {G['struct'][0] for G in gsites if G['struct'] is not None}
+    n = 0
+    for fn in facts.fns.values():
+        if fn.crate != 'fatfs' or fn.name in gfns or fn.name.endswith(DS_CTORS) or fn.name == 'fatfs::fs::format_volume':
+            continue
+        d = None
+        for b, t in fn.calls():
+            if not (t.get('callee') or '').endswith(DS_CTORS) or len(t['args']) < 3:
+                continue
+            if any(_field_read_of(fn, t['args'][0], adt) for adt in geo_structs):
+                continue
+            if d is None:
+                d = Deps(fn, expand_fields=True)
+            # data dependence of the start, not followed through `self` / parameters (everything hangs off them)
+            toks, seen_l, work = set(), set(), []
+            p0 = op_place(t['args'][0])
+            if p0 is not None:
+                work.append(p0['l'])
+                toks |= d._tokens_of_place(p0)
+            while work:
+                x = work.pop()
+                if x in seen_l or 1 <= x <= fn.argc:
+                    continue
+                seen_l.add(x)
+                for tk in d.direct.get(x, ()):
+                    toks.add(tk)
+                    if tk[0] == 'local':
+                        work.append(tk[1])
+            calls = {tk[1].rsplit('::', 1)[-1] for tk in toks if tk[0] == 'call'}
+            fields = {tk[1] for tk in toks if tk[0] == 'field'}
+            table_view = 'reserved_sectors' in calls and not ({'first_data_sector', 'root_dir_sectors'} & (calls | fields))
+            if not table_view:
+                continue
+            n += 1
+            rep.oblige('R10.8', '%s|bb%d' % (fn.name, b), ok=False, nontrivial=True, sample={'fn': fn.name, 'at': fn.loc(t['span'])})
+            rep.violation('R10.8', vkey('R10.8', fn.name, 'table-view', ''), fn.loc(t['span']),
+                          '%s builds a view of the allocation table that starts right after the reserved sectors without looking at the '
+                          'mirroring flag / active-FAT number (`%s`): on a volume whose active table is not the first one it reads '
+                          'a stale copy' % (fn.name, t['span']['snip'][:70]))
+    rep.oblige('R10.8.scan', 'fatfs', ok=True)
+    rep.counts['R10.8.sites'] = n
+
+
 _run_r10 = run
 
 
@@ -532,3 +584,4 @@ def run(ctx, rep):
     _run_r10(ctx, rep)
     run_raw_writers(ctx, rep)
     run_copies(ctx, rep)
+    run_table_views(ctx, rep)
